@@ -320,7 +320,8 @@ func randRawObj(r *rand.Rand, malformed bool) any {
 		case 0:
 			o[[]string{"name", "file", "environment", "content", "driver", "template_driver"}[r.Intn(6)]] = []any{0, 7, -3, 65536}[r.Intn(4)]
 		case 1:
-			o["external"] = []string{"true", "false", "yes", "No", "ON", "off", "y", "n", "maybe", "", "TRUE"}[r.Intn(11)]
+			o["external"] = []string{"true", "false", "yes", "No", "ON", "off", "y", "n", "maybe", "", "TRUE",
+				"ＴＲＵＥ", "yeＳ", "\u212a", "o\u212a", "\u0130", "n\u0130", "é", "tru\u00e9", "ｙ"}[r.Intn(20)]
 		case 2:
 			o["labels"] = tree{"a": []any{1, true, nil, "v", 1.5, false}[r.Intn(6)], "b.c": "x: y"}
 		case 3:
@@ -361,7 +362,7 @@ func genDecode(ctx *core.Ctx) {
 		ctx.Add("c20.decode", decodeArgs{V: enc(nil), Kind: kind})
 	}
 	// exhaustive: every node kind at every typed field
-	kindVals := []any{nil, true, false, 0, 42, 1.5, "", "x", "true", "Yes", "no", "k=v", []any{}, []any{"a=b", "c", 3, nil, true}, []any{tree{"k": "v"}}, tree{}, tree{"k": "v", "n": 3, "z": nil, "b": true, "f": 0.5}, tree{"k": []any{"x"}}}
+	kindVals := []any{nil, true, false, 0, 42, 1.5, "", "x", "true", "Yes", "no", "k=v", "ＴＲＵＥ", "\u212a", "\u0130", "ｙ", "oｎ", []any{}, []any{"a=b", "c", 3, nil, true}, []any{tree{"k": "v"}}, tree{}, tree{"k": "v", "n": 3, "z": nil, "b": true, "f": 0.5}, tree{"k": []any{"x"}}}
 	for _, kind := range []string{"secret", "config"} {
 		for _, f := range []string{"name", "file", "environment", "content", "Content", "external", "labels", "driver", "driver_opts", "template_driver", "#extensions"} {
 			for _, v := range kindVals {
